@@ -381,8 +381,9 @@ def run_kani_harness(crate_dir, harness, timeout=600, playback=False, extra=None
     if not playback and os.environ.get("VERIF_NO_CACHE") != "1" and os.path.exists(cpath):
         try:
             r = json.load(open(cpath))
-            r["cached"] = True
-            return r
+            if "covers_total" in r:
+                r["cached"] = True
+                return r
         except Exception:
             pass
     r = _run_kani_harness(crate_dir, harness, timeout, playback, extra, target_dir)
@@ -407,7 +408,12 @@ def _run_kani_harness(crate_dir, harness, timeout=600, playback=False, extra=Non
         cmd += ["--target-dir", target_dir]
     t0 = time.time()
     try:
-        p = subprocess.run(["timeout", str(timeout)] + cmd, capture_output=True, text=True, cwd=crate_dir, env=env)
+        # address-space cap per harness process tree: a runaway CBMC ends as "out of memory" (undecided) instead of taking the machine down
+        def _cap():
+            import resource
+            lim = int(os.environ.get("VERIF_KANI_MEM_GB", "32")) << 30
+            resource.setrlimit(resource.RLIMIT_AS, (lim, lim))
+        p = subprocess.run(["timeout", str(timeout)] + cmd, capture_output=True, text=True, cwd=crate_dir, env=env, preexec_fn=_cap)
     except Exception as e:  # pragma: no cover
         return {"status": "crash", "harness": harness, "output": str(e), "wall_s": time.time() - t0, "cmd": " ".join(cmd)}
     wall = time.time() - t0
@@ -424,10 +430,13 @@ def _run_kani_harness(crate_dir, harness, timeout=600, playback=False, extra=Non
     res["solver_s"] = float(mt.group(1)) if mt else None
     if p.returncode == 124:
         res["status"] = "timeout"
-    elif "run out of memory" in out or ("CBMC failed" in out and not res["failed_descriptions"]):
+    elif "run out of memory" in out or "std::bad_alloc" in out or "Out of memory" in out or ("CBMC failed" in out and not res["failed_descriptions"]):
         res["status"] = "oom"
     elif ms and ms.group(1) == "SUCCESSFUL":
         res["status"] = "ok"
+    elif ms and ms.group(1) == "FAILED" and not res["failed_descriptions"] and re.search(r"Status: ERROR", out):
+        # CBMC could not decide some checks (solver error / resource exhaustion): undecided, never a violation
+        res["status"] = "oom"
     elif ms and ms.group(1) == "FAILED":
         res["status"] = "unwinding" if res["unwinding_failed"] and all("unwinding" in x for x in res["failed_descriptions"]) else "failed"
     else:
@@ -436,6 +445,9 @@ def _run_kani_harness(crate_dir, harness, timeout=600, playback=False, extra=Non
         # all passed: count the checks lines
         res["total_checks"] = len(re.findall(r"^Check \d+:", out, re.M))
         res["failed_checks"] = 0 if res["status"] == "ok" else res.get("failed_checks", 0)
+    # reachability covers (kani::cover! in the harness): "** s of t cover properties satisfied"
+    mc = re.search(r"\*\* (\d+) of (\d+) cover properties satisfied", out)
+    res["covers_satisfied"], res["covers_total"] = (int(mc.group(1)), int(mc.group(2))) if mc else (0, 0)
     res["output_tail"] = out[-4000:]
     if playback:
         res["playback"] = parse_playback(out)
